@@ -322,11 +322,6 @@ module Z =
           | Z0 -> ((opp q), Z0)
           | _ -> ((opp (add q (Zpos XH))), (sub b r)))
        | Zneg b' -> let (q, r) = pos_div_eucl a' (Zpos b') in (q, (opp r)))
-
-  (** val div : z -> z -> z **)
-
-  let div a b =
-    let (q, _) = div_eucl a b in q
  end
 
 type pstate = { _prev : z option; _delta : z }
@@ -342,9 +337,8 @@ let get_timeout st ts =
     else if Z.ltb elapsed st._delta
          then ({ _prev = (Some (Z.add prev0 st._delta)); _delta =
                 st._delta }, (Some (Z.sub st._delta elapsed)))
-         else ({ _prev = (Some
-                (Z.add prev0 (Z.mul st._delta (Z.div elapsed st._delta))));
-                _delta = st._delta }, None)
+         else ({ _prev = (Some (Z.add prev0 st._delta)); _delta =
+                st._delta }, None)
   | None -> ({ _prev = (Some ts); _delta = st._delta }, None)
 
 (** val init : bool -> z -> pstate option **)
